@@ -638,6 +638,8 @@ impl QueryParser {
                 }
                 let field = Field {
                     name : model_field.name.clone(),
+                    short_name: model_field.short_name.clone(),
+                    default_value: model_field.default_value.clone(),
                     is_system: model_field.is_system,
                     field_type: FieldType::Float,
                     ..Default::default()
@@ -664,6 +666,8 @@ impl QueryParser {
                 }
                 let field = Field {
                     name : model_field.name.clone(),
+                    short_name: model_field.short_name.clone(),
+                    default_value: model_field.default_value.clone(),
                     is_system: model_field.is_system,
                     field_type: FieldType::Float,
                     ..Default::default()
@@ -690,6 +694,8 @@ impl QueryParser {
 
                 let field = Field {
                     name : model_field.name.clone(),
+                    short_name: model_field.short_name.clone(),
+                    default_value: model_field.default_value.clone(),
                     is_system: model_field.is_system,
                     field_type: FieldType::Float,
                     ..Default::default()
@@ -715,6 +721,8 @@ impl QueryParser {
                 }
                 let field = Field {
                     name : model_field.name.clone(),
+                    short_name: model_field.short_name.clone(),
+                    default_value: model_field.default_value.clone(),
                     is_system: model_field.is_system,
                     field_type: FieldType::Float,
                     ..Default::default()
